@@ -100,9 +100,10 @@ var tagValues = map[string][]string{
 }
 
 type ggen struct {
-	r     *rand.Rand
-	depth int
-	notes []string
+	r      *rand.Rand
+	depth  int
+	notes  []string
+	hugeOK bool
 }
 
 func (g *ggen) tag() reflect.StructTag {
@@ -156,6 +157,13 @@ func (g *ggen) typ() reflect.Type {
 	case x < 58:
 		return reflect.SliceOf(g.typ())
 	case x < 61:
+		if g.hugeOK && g.r.Intn(6) == 0 {
+			// enormous arrays of zero-size elements: legal types whose values cost nothing. Only among
+			// the parameters of the top-level function, so that no such value is ever produced, cached
+			// and printed element by element by String()
+			elem := []reflect.Type{reflect.TypeOf(struct{}{}), reflect.TypeOf([0]int{}), reflect.TypeOf([0]*V0{})}[g.r.Intn(3)]
+			return reflect.ArrayOf([]int{1 << 62, 1 << 40, 1<<31 + 1}[g.r.Intn(3)], elem)
+		}
 		return reflect.ArrayOf(g.r.Intn(3), g.typ())
 	case x < 65:
 		k := []reflect.Type{reflect.TypeOf(0), reflect.TypeOf(""), typeTab[0], typeTab[16]}[g.r.Intn(4)]
@@ -237,7 +245,9 @@ func (g *ggen) funcType(top bool) reflect.Type {
 	}
 	var ins, outs []reflect.Type
 	for i := 0; i < nIn; i++ {
+		g.hugeOK = top
 		ins = append(ins, g.typ())
+		g.hugeOK = false
 	}
 	for i := 0; i < nOut; i++ {
 		if g.r.Intn(5) == 0 {
